@@ -29,6 +29,14 @@ pub struct Trace {
     /// stored meta-blocks.
     #[serde(default)]
     pub rewrap_woff2: bool,
+    /// With `rewrap_woff2`: append this many run-length meta-blocks (16 MiB of zeros in 13 bytes
+    /// each) to the re-emitted stream - a decompression bomb behind an honest table directory.
+    #[serde(default, skip_serializing_if = "is_zero_u32")]
+    pub woff2_tail_blocks: u32,
+    /// With `rewrap_woff2`: attach an extended-metadata block that consists of this many
+    /// run-length meta-blocks (header metaOffset / metaLength / metaOrigLength set to match).
+    #[serde(default, skip_serializing_if = "is_zero_u32")]
+    pub woff2_meta_blocks: u32,
     /// Image mode, bare sfnt corpus fonts: the (surgered, table-faulted) disk model is wrapped as
     /// a WOFF2 file with null transforms and served by the real `Woff2TableProvider`.
     #[serde(default)]
@@ -191,6 +199,10 @@ pub enum Fault {
         tag: String,
         err: String,
     },
+}
+
+fn is_zero_u32(v: &u32) -> bool {
+    *v == 0
 }
 
 impl Fault {
